@@ -171,6 +171,14 @@ SIG = {
                    [('ecdsa_sign', 'Option Bytes → Bytes'), ('sigdecode_der', 'Bytes → Int → Except PyErr (Int × Int)'),
                     ('sigencode_der', 'Int → Int → Int → Bytes'), ('grind_bound', 'Nat'), ('tx_digest', 'Bytes'), ('sighash', 'Int')],
                    'Bytes'),
+    # WIF: base58check (third party) and python-ecdsa's SigningKey.from_string as parameters; the configured network's prefix a
+    # parameter; a `str` handed to b58decode is that parameter's argument as it is
+    'from_wif': ('keys.py', 'PrivateKey._from_wif',
+                 [('hashlib_sha256', 'Bytes → Bytes'), ('b58decode', 'String → Except PyErr Bytes'),
+                  ('signingkey_from_string', 'Bytes → Except PyErr Int'), ('wif_prefix', 'Bytes'), ('wif', 'String')], 'Int'),
+    'to_wif': ('keys.py', 'PrivateKey.to_wif',
+               [('hashlib_sha256', 'Bytes → Bytes'), ('b58encode', 'Bytes → String'), ('wif_prefix', 'Bytes'),
+                ('self_key_bytes', 'Bytes'), ('compressed', 'Bool')], 'String'),
     # taproot signing: the key object is its 32 secret bytes, the public-key object its 64 bytes x || y
     'sign_taproot_input': ('keys.py', 'PrivateKey._sign_taproot_input',
                            [('hashlib_sha256', 'Bytes → Bytes'), ('OPS', 'List (String × Bytes)'), ('self_key_bytes', 'Bytes'),
@@ -385,7 +393,7 @@ class Tr:
     def __init__(s, name, file=None):
         s.name = name; s.tmp = 0; s.pre = []; s.declared = set(); s.points = set(); s.tuple5 = set()
         s.toklists = set(); s.tokvars = set(); s.optables = set(); s.byteslists = set(); s.reclists = {}; s.recvars = {}; s.revtables = set()
-        s.hoisted = set(); s.selfcopies = set(); s.scriptlists = set(); s.fmtvars = {}; s.fmtpre = {}; s.hoisting = False; s.ratvars = set(); s.optvars = set(); s.charvars = set(); s.hexvars = set(); s.tweak_point_ctx = False; s.treevars = {}; s.pairvars = set()
+        s.hoisted = set(); s.selfcopies = set(); s.scriptlists = set(); s.fmtvars = {}; s.fmtpre = {}; s.hoisting = False; s.ratvars = set(); s.optvars = set(); s.charvars = set(); s.hexvars = set(); s.tweak_point_ctx = False; s.treevars = {}; s.pairvars = set(); s.strvars = set()
         s.fconsts = FILE_CONSTS.get(file, {})
 
     def fail(s, n, why):
@@ -629,6 +637,34 @@ class Tr:
             return f'(Py.slice pubkey_bytes {lo} {hi})'
         return None
 
+    def e_wif(s, n):
+        # NETWORK_WIF_PREFIXES[get_network()]
+        if (isinstance(n, ast.Subscript) and isinstance(n.value, ast.Name) and n.value.id == 'NETWORK_WIF_PREFIXES'
+                and isinstance(n.slice, ast.Call) and getattr(n.slice.func, 'id', '') == 'get_network' and not n.slice.args):
+            return 'wif_prefix'
+        if isinstance(n, ast.Call) and isinstance(n.func, ast.Attribute):
+            f = n.func
+            if f.attr == 'encode' and isinstance(f.value, ast.Name) and f.value.id == 'wif' and s.name == 'from_wif': return 'wif'
+            if f.attr == 'decode' and isinstance(f.value, ast.Name) and f.value.id in s.strvars: return f.value.id
+            if (f.attr == 'to_bytes' and not n.args and isinstance(f.value, ast.Name) and f.value.id == 'self' and 'self_key_bytes' in s.params):
+                return 'self_key_bytes'
+            if (f.attr == 'from_string' and isinstance(f.value, ast.Name) and f.value.id == 'SigningKey' and len(n.args) == 1
+                    and {k.arg for k in n.keywords} <= {'curve'}):
+                return s.eff(f'signingkey_from_string {s.e(n.args[0])}')
+        if isinstance(n, ast.Call) and isinstance(n.func, ast.Name):
+            if n.func.id == 'b58decode' and len(n.args) == 1: return s.eff(f'b58decode {s.e(n.args[0])}')
+            if n.func.id == 'b58encode' and len(n.args) == 1: return f'(b58encode {s.e(n.args[0])})'
+        if isinstance(n, ast.Subscript) and isinstance(n.slice, ast.Slice) and n.slice.step is None and s.isbytes(n.value):
+            def neg(x): return (isinstance(x, ast.UnaryOp) and isinstance(x.op, ast.USub)) or (isinstance(x, ast.Constant) and isinstance(x.value, int) and x.value < 0)
+            if (n.slice.lower is not None and neg(n.slice.lower)) or (n.slice.upper is not None and neg(n.slice.upper)):
+                lo = s.e(n.slice.lower) if n.slice.lower else '(0 : Int)'
+                if n.slice.upper is None: return f'(Py.sliceFromL {s.e(n.value)} {lo})'
+                return f'(Py.sliceL {s.e(n.value)} {lo} {s.e(n.slice.upper)})'
+        if (isinstance(n, ast.Compare) and len(n.ops) == 1 and isinstance(n.ops[0], ast.Is) and isinstance(n.comparators[0], ast.Constant)
+                and n.comparators[0].value is True and isinstance(n.left, ast.Name) and n.left.id in s.boolvars):
+            return f'({n.left.id} == true)'
+        return None
+
     def e_sign(s, n):
         if isinstance(n, ast.Attribute) and isinstance(n.value, ast.Name) and n.value.id == 'Secp256k1Params' and n.attr == '_order':
             return CONSTS['Secp256k1Params._order']
@@ -649,6 +685,9 @@ class Tr:
         return None
 
     def e(s, n):
+        if s.name in ('from_wif', 'to_wif'):
+            r = s.e_wif(n)
+            if r is not None: return r
         if s.name == 'sign_input':
             r = s.e_sign(n)
             if r is not None: return r
@@ -997,6 +1036,8 @@ class Tr:
             if nm == 'hex' and s.name in PARSERS and isinstance(f, ast.Attribute): return s.isbytes(f.value)
             if nm == 'full_pubkey_gen' and s.name in TWEAKFUNS: return True
             if s.name == 'sign_input' and nm in ('sign_digest_deterministic', 'sigencode_der'): return True
+            if s.name in ('from_wif', 'to_wif') and nm in ('b58decode',): return True
+            if s.name == 'to_wif' and nm == 'to_bytes' and isinstance(f, ast.Attribute) and getattr(f.value, 'id', '') == 'self': return True
             if s.name in TREEFUNS and nm in ('get_tag_hashed_merkle_root', 'tapleaf_tagged_hash', 'tapbranch_tagged_hash', 'tagged_hash',
                                              'tweak_taproot_privkey', 'schnorr_sign', 'to_string'): return True
             return nm in ('to_bytes', 'pack', 'bytes', 'encode_varint', 'h_to_b', 'b_to_h', '_op_push_data',
@@ -1187,6 +1228,28 @@ class Tr:
         r = [ind + p for p in s.pre]; s.pre = []; return r
 
     def stmt(s, st, ind):
+        if s.name == 'from_wif' and isinstance(st, ast.Assign) and len(st.targets) == 1:
+            tg = st.targets[0]
+            if isinstance(tg, ast.Attribute) and isinstance(tg.value, ast.Name) and tg.value.id == 'self' and tg.attr == 'key':
+                # the method's effect is the key it installs (nothing follows the assignment on either branch — checked)
+                body = s.fnode.body
+                def last_in_branch(stmts):
+                    if not stmts: return False
+                    l = stmts[-1]
+                    if l is st: return True
+                    if isinstance(l, ast.If): return last_in_branch(l.body) or last_in_branch(l.orelse)
+                    return False
+                if not last_in_branch(body): s.fail(st, 'self.key assigned before the end of the method')
+                v = s.e(st.value)
+                return s.flush(ind) + [f'{ind}return {v}']
+            if isinstance(tg, ast.Name) and tg.id == 'wif_utf':
+                v = s.e(st.value); s.declared.add('wif_utf'); s.strvars.add('wif_utf')
+                return s.flush(ind) + [f'{ind}let wif_utf := {v}']
+        if s.name == 'to_wif' and isinstance(st, ast.Assign) and len(st.targets) == 1 and isinstance(st.targets[0], ast.Name) \
+                and isinstance(st.value, ast.Call) and getattr(st.value.func, 'id', '') == 'b58encode':
+            nm = st.targets[0].id
+            v = s.e(st.value); s.declared.add(nm); s.strvars.add(nm)
+            return s.flush(ind) + [f'{ind}let {nm} := {v}']
         if s.name in TREEFUNS:
             if isinstance(st, ast.Nonlocal):
                 if st.names != [NONLOCAL_STATE.get(s.name)]: s.fail(st, 'nonlocal')
